@@ -145,6 +145,37 @@ def model_step(psi, ham, order, dt, imag):
     return psi
 
 
+class _RelabelledHam:
+    """The world addresses sites by integers; the graph Hamiltonian uses
+    string labels whose sorted order is the integer order."""
+
+    def __init__(self, ham, labels):
+        self._ham = ham
+        self._labels = labels
+        self._index = {l: i for i, l in enumerate(labels)}
+
+    @property
+    def terms(self):
+        return {tuple(self._index[x] for x in k): v for k, v in self._ham.terms.items()}
+
+    def _w(self, where):
+        return tuple(self._labels[i] for i in where)
+
+    def get_gate(self, where):
+        return self._ham.get_gate(self._w(where))
+
+    def get_gate_expm(self, where, x):
+        return self._ham.get_gate_expm(self._w(where), x)
+
+    def apply_to_arrays(self, fn):
+        return self._ham.apply_to_arrays(fn)
+
+    def get_trotter_gates(self, x, order=2):
+        for g in self._ham.get_trotter_gates(x, order=order):
+            U, where = g
+            yield U, tuple(self._index[w] for w in where)
+
+
 # --------------------------------------------------------------------------- #
 
 
@@ -198,6 +229,10 @@ class TEBDWorld(World):
             "max_steps": r.choice([4, 6, 8]) if cyclic else r.choice([5, 8, 12]),
             "reuse": r.random() < 0.5,
             "mix": r.choice(["evolve", "evolve", "ham", "both"]),
+            # a general-graph LocalHamGen (no TEBD on it): term merging, single
+            # site term distribution over all covering edges, caches
+            "graph": r.random() < 0.12,
+            "graph_seed": r.randrange(2**31),
         }
 
     # ------------------------------------------------------------------ setup
@@ -253,8 +288,66 @@ class TEBDWorld(World):
         H = (A + A.conj().T) / 2
         return H if not real else H.astype(float)
 
+    def _build_graph_ham(self):
+        """LocalHamGen on a random connected graph with string node labels."""
+        kn = self.knobs
+        rs = data_rng(kn["graph_seed"])
+        rng = data_rng(kn["ham_seed"])
+        n = int(rs.integers(3, 6))
+        self.L = n
+        self.cyclic = False
+        labels = [f"s{i}" for i in range(n)]  # sorted order == integer order
+        edges = set()
+        for i in range(1, n):
+            edges.add((int(rs.integers(i)), i))
+        for _ in range(int(rs.integers(0, 3))):
+            a, b = sorted(int(x) for x in rs.choice(n, size=2, replace=False))
+            edges.add((a, b))
+        h2, arg2 = {}, {}
+        for (a, b) in sorted(edges):
+            G = self._rand_op(rng, 4)
+            if rs.random() < 0.4:
+                arg2[(labels[b], labels[a])] = G
+                h2[(b, a)] = G.copy()
+            else:
+                arg2[(labels[a], labels[b])] = G
+                h2[(a, b)] = G.copy()
+        if rs.random() < 0.3:
+            # the same edge supplied in both orders: the two must be merged
+            (a, b) = sorted(edges)[0]
+            if (a, b) in h2:
+                G = self._rand_op(rng, 4)
+                arg2[(labels[b], labels[a])] = G
+                h2[(b, a)] = G.copy()
+        h1, arg1 = {}, None
+        f1 = kn["h1_form"]
+        if f1 == "array":
+            A = self._rand_op(rng, 2)
+            arg1 = A
+            h1 = {s: A.copy() for s in range(n)}
+        elif f1 != "none":
+            arg1 = {}
+            if f1 == "default+override":
+                A = self._rand_op(rng, 2)
+                arg1[None] = A
+                h1 = {s: A.copy() for s in range(n)}
+            for s_ in range(n):
+                if rs.random() < 0.5:
+                    B = self._rand_op(rng, 2)
+                    arg1[labels[s_]] = B
+                    h1[s_] = B.copy()
+        model = HamModel(n, False, h2, h1)
+        st, ham = self.call(lambda: self.qtn.LocalHamGen(H2=arg2, H1=arg1))
+        if st == "rejected":
+            raise Violation("C11/rejected_valid_input", repr(ham))
+        del arg1, arg2
+        self.labels = labels
+        return model, _RelabelledHam(ham, labels)
+
     def _build_ham(self):
         kn = self.knobs
+        if kn.get("graph"):
+            return self._build_graph_ham()
         L, cyclic = self.L, self.cyclic
         rng = data_rng(kn["ham_seed"])
         nb = L if cyclic else L - 1
@@ -319,17 +412,24 @@ class TEBDWorld(World):
         reuse = kn["reuse"] and r.random() < 0.7
         npairs = len(self.model.pairs())
         c = r.random()
-        if not self.tebds and (mix != "ham" or c < 0.3):
+        if kn.get("graph"):
+            k = wchoice(r, [("expm", 4), ("terms_check", 2), ("apply_to_arrays", 2), ("get_gate", 2), ("trotter_gates", 1)])
+            mix = "graph"
+        elif not self.tebds and (mix != "ham" or c < 0.3):
             return self._gen_new(r)
         ham_ops = [("expm", 4), ("terms_check", 1), ("apply_to_arrays", 2), ("get_gate", 1), ("trotter_gates", 1)]
         evo_ops = [("update_to", 6), ("step", 2), ("at_times", 2), ("gen_next", 2), ("new_tebd", 1), ("convergence", 0.3)]
-        if mix == "ham":
+        if mix == "graph":
+            pass
+        elif mix == "ham":
             table = ham_ops + [("update_to", 1)]
+            k = wchoice(r, table)
         elif mix == "evolve":
             table = evo_ops + [("expm", 1), ("apply_to_arrays", 0.7)]
+            k = wchoice(r, table)
         else:
             table = ham_ops + evo_ops
-        k = wchoice(r, table)
+            k = wchoice(r, table)
         if k in ("update_to", "step", "at_times", "gen_next", "convergence") and not self.tebds:
             return self._gen_new(r)
         if k == "new_tebd":
@@ -378,6 +478,8 @@ class TEBDWorld(World):
 
     # ------------------------------------------------------------- execution
     def apply(self, op):
+        if self.knobs.get("graph") and op["k"] in ("new_tebd", "update_to", "step", "at_times", "gen_next", "convergence"):
+            raise Skip()
         self.alloc.reuse = bool(op.get("reuse"))
         try:
             fn = getattr(self, "_op_" + op["k"], None)
